@@ -12,7 +12,35 @@ OUTSIDE = ["the gRPC transport itself", "numeric fields come from boundary pools
 
 NUMS = [0, 1, 7, 2 ** 31 - 1]
 BIG = [0, 1, 2 ** 31, 2 ** 63 - 1]
-TEXTS = ["tok", "", "ünï ☃", "a\nb\t\"q\"", "x" * 40]
+TEXTS = ["tok", "", "ünï ☃", "a\nb\t\"q\"", "x" * 40,
+         # text protobuf cannot carry (lone surrogates; the low ones are what surrogateescape yields for undecodable file names)
+         "a\ud800b", "caf\udce9.py", "\udc80\ud800"]
+# the string fields the COLLECTOR fills from the application (the others come from the service / the configuration)
+COLLECTED = ("child", "orig", "type", "value", "file", "short", "method", "var", "cls", "tfile", "expr", "wname", "error", "log")
+
+
+def _encodable(ch):
+    try:
+        ch.encode("utf-8")
+        return True
+    except UnicodeEncodeError:
+        return False
+
+
+def _same_text(got, want):
+    """Equal, or - where `want` holds code points UTF-8 cannot carry - equal with each of those replaced by ONE encodable character."""
+    if got == want:
+        return True
+    if not isinstance(got, str) or not isinstance(want, str) or len(got) != len(want):
+        return False
+    for g, w_ in zip(got, want):
+        if _encodable(w_):
+            if g != w_:
+                return False
+        elif not _encodable(g):
+            return False
+    return True
+
 
 
 def flatten(msg, prefix=""):
@@ -185,7 +213,7 @@ def build_snapshot(nf, nv, nw, na, opt, num, big, txt, which, src):
 
     def tok(name):
         tokens["n"] += 1
-        if tokens["n"] - 1 == which:
+        if tokens["n"] - 1 == which and (txt < 5 or name in COLLECTED):
             return TEXTS[txt]
         return "%s#%d" % (name, tokens["n"])
     optional = bool(opt)
@@ -224,7 +252,7 @@ def convert(nf: int, nv: int, nw: int, na: int, opt: int, num: int, big: int, tx
     Field-by-field equality between a harness-assembled snapshot and the real protobuf message produced by
     convert_snapshot (walked through the real descriptors), then a serialise / parse round trip.
     PRE: 0 <= nf <= 2 and 0 <= nv <= 3 and 0 <= nw <= 2 and 0 <= na <= 3 and 0 <= opt <= 1 and 0 <= num <= 3 and 0 <= big <= 3
-    PRE: 0 <= txt <= 4 and -1 <= which <= 30 and 0 <= src <= 3
+    PRE: 0 <= txt <= 7 and -1 <= which <= 30 and 0 <= src <= 3
     POST: _ == ""
     """
     world.begin_path()
@@ -237,6 +265,8 @@ def convert(nf: int, nv: int, nw: int, na: int, opt: int, num: int, big: int, tx
     if msg is None:
         return "C08:snapshot-not-converted(dropped)"
     got, want = flatten(msg), expected(s)
+    if txt >= 5:
+        got = {k: (want[k] if k in want and _same_text(g_, want[k]) else g_) for k, g_ in got.items()}
     if got != want:
         missing = sorted(k for k in want if k not in got)
         extra = sorted(k for k in got if k not in want)
@@ -248,8 +278,10 @@ def convert(nf: int, nv: int, nw: int, na: int, opt: int, num: int, big: int, tx
             return "C08:field-altered:" + diff[0].split(".")[-1].split("[")[0]
         return "C08:field-invented:" + extra[0].split(".")[-1].split("[")[0]
     data = msg.SerializeToString()
-    back = Snapshot.FromString(data)
-    if flatten(back) != want:
+    back = flatten(Snapshot.FromString(data))
+    if txt >= 5:
+        back = {k: (want[k] if k in want and _same_text(g_, want[k]) else g_) for k, g_ in back.items()}
+    if back != want:
         return "C08:does-not-survive-serialisation"
     return ""
 
@@ -428,16 +460,17 @@ MUTANTS = {"drop_app_frame": _mut_drop_app_frame, "swap_type_value": _mut_swap_t
 CONDITIONS = [
     dict(fn="convert", cubes={"quick": ["nf == %d and nv == %d and opt == %d and which == -1 and txt == 0 and big == num and src in (0, 3)" % (f, v, o) for f in range(3) for v in (0, 2, 3) for o in range(2)] +
                                        ["nf == 1 and nv == 2 and nw == 2 and na == 2 and opt == 1 and num == 1 and big == 1 and src == 0 and txt == %d and which %s" % (t, r)
-                                        for t in (1, 2, 3, 4) for r in ("<= 15", ">= 16")],
+                                        for t in (1, 2, 3, 4, 5, 6, 7) for r in ("<= 15", ">= 16")],
                               "thorough": ["nf == %d and nv == %d and opt == %d and nw == %d and src == %d and which == -1 and txt == 0" % (f, v, o, w, sr) for f in range(3) for v in range(4) for o in range(2) for w in range(3) for sr in range(4)] +
                                           ["nf == %d and nv == 2 and nw == 2 and na == 2 and opt == 1 and num == 1 and big == 1 and src == 0 and txt == %d and which %s" % (f, t, r)
-                                           for f in (1, 2) for t in (1, 2, 3, 4) for r in ("<= 15", ">= 16")]},
+                                           for f in (1, 2) for t in (1, 2, 3, 4, 5, 6, 7) for r in ("<= 15", ">= 16")]},
          twins=["reach", "mutant:drop_app_frame@nf == 1 and nv == 0 and opt == 0 and which == -1 and txt == 0 and big == num and src in (0, 3)",
                 "mutant:swap_type_value@nf == 0 and nv == 2 and opt == 0 and which == -1 and txt == 0 and big == num and src in (0, 3)",
                 "mutant:tuple_dropped@nf == 0 and nv == 0 and opt == 0 and which == -1 and txt == 0 and big == num and src in (0, 3)"],
          bounds="0-2 frames, 0-3 table entries with 0-2 children, 0-2 watches (good / error, 4 sources), 0-3 attributes over 12 value shapes (scalars, tuples, list, empty), "
                 "optional fields present / absent, numeric fields from boundary pools (incl. 2^31, 2^63-1, tracepoint line -1), every string a distinct token; one string field at a time "
-                "replaced by '', non-ASCII, control characters or a long text; real protobuf classes + serialise/parse round trip"),
+                "replaced by '', non-ASCII, control characters or a long text, and - in the fields the collector fills from the application - text with lone high / low surrogates "
+                "(expected: every other character kept, each unencodable one replaced by one encodable character); real protobuf classes + serialise/parse round trip"),
     dict(fn="auth", cubes=["pi == %d and npoll == %d" % (p, n) for p in range(5) for n in range(4)], twins=["reach", "mutant:metadata_only_on_poll@pi == 2 and npoll == 1"],
          bounds="5 provider configurations (absent, '', Basic, custom, one that fails on its first 1-2 calls) x 4 credential settings x 0-3 polls x 0-3 sends"),
 ]
